@@ -124,6 +124,7 @@ def loop_checks(chk, prog, fn, reader, only_tail=False):
         chunk = ("vfld", nxt, "Some", "0")
         ptr = ("be", ("array", tuple(("idx", chunk, C(i, "usize")) for i in range(4))), "u32")
     locate_ok = []
+    n_rej = 0
     bid = call(DES % (D + "data_block_id::DataBlockId"), reader)
     name = None
     byte_form = False
@@ -136,6 +137,16 @@ def loop_checks(chk, prog, fn, reader, only_tail=False):
         if kind != "next":
             if kind != "exit:error":
                 chk.ob("R-ERR", FN, False, "the block loop can be left in an unexpected way (%s)" % kind, w, key="exit:" + kind)
+            else:
+                # a well-formed block is never refused: an iteration fails only because one of its stream steps failed, or
+                # because the block's name is none of the ICD's (a path that tests nothing but the name)
+                failing = [c for c in conds if len(c) == 3 and c[0][0] == "discr" and c[2] == ((1, 1),) and c[0][1][0] == "call"
+                           and not c[0][1][1].endswith("::next") and sym._mentions(c[0][1], reader)]
+                if not failing:
+                    extra_c = [show(c[0])[:90] for c in conds if not (len(c) == 3 and c[0][0] == "discr") and not _name_test(c, bid)]
+                    n_rej += 1
+                    chk.ob("R-ERR", FN, not extra_c, "a block is refused without a failed stream step only for an unknown name" if not extra_c else
+                           "a block whose reads all succeed is refused depending on: %s" % "; ".join(sorted(set(extra_c)))[:300], w, key="reject-only-unknown-name#%d" % n_rej)
             continue
         n_next += 1
         # ordered prefix: next -> seek(Start(entry + zext(pointer))) -> read id -> seek(Current(-size(id)))
@@ -191,7 +202,7 @@ def loop_checks(chk, prog, fn, reader, only_tail=False):
             upd_field, stored = mv[2], mv[3]
         if len(true_lits) == 1 and upd_field:
             lit = true_lits[0]
-            ty = None
+            ty = "<a payload that is neither deserialize::<T>(reader) nor a generic block's header + buffer read: %s>" % show(stored)[:160]
             if stored[0] == "adt" and stored[2] == "Some":
                 pay = stored[3][0][1]
                 if pay[0] == "vfld" and pay[1][0] == "call" and pay[1][1].startswith("nexrad_decode::util::deserialize::<"):
@@ -250,6 +261,17 @@ def loop_checks(chk, prog, fn, reader, only_tail=False):
     chk.floor("dispatch arms", len(found), 10)
     # position base taken before anything is read; rewind constant = DataBlockId wire size
     term.check_seek_discipline(chk, prog, [FN], interval.Engine(prog))
+
+
+def _name_test(c, bid):
+    """condition c tests the block id's three name bytes and nothing else of the id"""
+    dn_ = fld(okv(bid), "data_name")
+    if len(c) == 3 and c[0][0] == "idx" and c[0][1] == dn_:
+        return True
+    if len(c) == 2 and c[0][0] == "bin" and c[0][1] in ("Eq", "Ne") and any(sym._mentions(x, dn_) for x in c[0][2:4]) and not any(
+            sym._mentions(x, fld(okv(bid), "data_block_type")) for x in c[0][2:4]):
+        return True
+    return False
 
 
 def pointer_list(it0):
